@@ -46,7 +46,6 @@ def decCdOp (s : String) : Option (Op Nat) :=
   | ["ror", p] => (decPairs p).map .ror
   | ["fromkeys", ks, v] => v.toNat?.map (.fromkeys (decStrList ks))
   | ["mte", k, l] => some (.moveToEnd (decStr k) (l == "1"))
-  | ["mteb", k, l] => some (.moveToEndBytes (decStr k) (l == "1"))
   | ["keys"] => some .keys
   | ["values"] => some .values
   | ["items"] => some .items
@@ -60,7 +59,7 @@ def decCdOp (s : String) : Option (Op Nat) :=
 def opKeys : Op Nat → List Str
   | .init l | .update l | .eq l | .ne l | .or l | .ior l | .ror l => l.map Prod.fst
   | .getitem k | .setitem k _ | .delitem k | .contains k | .hasKey k | .get k _ | .setdefault k _
-  | .pop k _ | .moveToEnd k _ | .moveToEndBytes k _ => [k]
+  | .pop k _ | .moveToEnd k _ => [k]
   | .fromkeys ks _ | .sortedKeys ks | .sortedItems ks => ks
   | _ => []
 
